@@ -52,6 +52,9 @@ KINDS = ["GaussianMeasure", "GaussianPDF", "GaussianDiagMeasure", "GaussianDiagP
 
 def shards(tier, seed):
     out = []
+    # measures reached by operation histories (products via fast paths, slices, normalisation ...): start from non-initial states
+    for root in ("GaussianMeasure/R1", "GaussianMeasure/R2", "GaussianPDF/R2", "GaussianDiagMeasure/R2"):
+        out.append(dict(id="C03/history/%s" % root, history=True, root=root, D=2, key="*", cost=30, facts=dict(root=root, D=2)))
     for ki, key in enumerate(KEYS):
         for D in BOUNDS[tier]["D"] + BOUNDS[tier].get("D_base_only", []):
             nform = len(KEYS[key]["layout"])
@@ -216,7 +219,72 @@ def run_case(ctx, key, D, dims, R, share, omit, kind, vi, seed, exact):
     return dict(key=key, kwargs={k: np.asarray(v) for k, v in kwargs.items()}, kind=kind, expected=ref)
 
 
+def run_history(shard, ctx):
+    """All 12 keys on every measure state reached by histories of depth <= 2 (thorough 3) over the reduced alphabet
+    of the shared transition system; reference = mass x Isserlis moment from the NumPy MODEL of the state."""
+    from .. import bfs
+    from . import _graph
+
+    tier, seed = shard["tier"], shard["seed"]
+    D = shard["D"]
+    spec = [sp for sp in _graph.root_specs(D, tier) if sp["label"] == shard["root"]][0]
+
+    class IntSystem(_graph.GaussSystem):
+        def check_state(self, ctx, obj, model, hist):
+            ok = _graph.GaussSystem.check_state(self, ctx, obj, model, hist)
+            if not ok or model["t"] != "measure" or model["Lam"].shape[1] != D:
+                return ok
+            R = len(model["Lam"])
+            facts = dict(root=hist[0], hist=">".join(hist[1]), R=R, mask=objs.cache_mask(obj))
+            par = []
+            for r in range(R):
+                mu, Sig = rm.nat_to_moment(model["Lam"][r], model["nu"][r])
+                par.append((float(np.exp(rm.ln_integral(model["Lam"][r], model["nu"][r], model["lnb"][r]))), rm.raw_moments(mu, Sig, 4)))
+            import copy
+
+            for key, spec_k in KEYS.items():
+                layout, sym = spec_k["layout"], spec_k["sym"]
+                dims = dict(K=3, L=2, M=1)
+                kwargs, forms = {}, []
+                gi = 0
+                for c in layout:
+                    if c == "X":
+                        forms.append((np.eye(D), np.zeros(D)))
+                    elif c == "s":
+                        if spec_k["scalar"] == "Aa":
+                            A = coef_matrix(1, D, 1, 0, seed, ("sA",), False)[0]
+                            a = coef_vector(1, 1, 0, seed, ("sa",), False)[0]
+                            kwargs["A_mat"], kwargs["a_vec"] = J(A), J(a)
+                            forms.append((A[0], a[0]))
+                        else:
+                            b = coef_vector(D, 1, 0, seed, ("sb",), False)[0]
+                            kwargs["b_vec"] = J(b)
+                            forms.append((b, 0.0))
+                    else:
+                        K = dims[sym[gi]]
+                        A = coef_matrix(K, D, 1, 0, seed, (c + "m",), False)[0] * 0.5
+                        a = coef_vector(K, 1, 0, seed, (c + "v",), False)[0] * 0.5
+                        kwargs[c + "_mat"], kwargs[c.lower() + "_vec"] = J(A), J(a)
+                        forms.append((A, a))
+                        gi += 1
+                f2 = dict(facts, key=key)
+                with ctx.guard("history.integrate.call", f2) as g:
+                    got = np.asarray(copy.copy(obj).integrate(key, **kwargs))
+                if not g.ok:
+                    continue
+                ref = np.array([mass * np.asarray(rm.expect_poly(mom, forms, spec_k["spec"]), float) for mass, mom in par])
+                ctx.close("history.integrate.value", got, ref, scale=float(np.max(np.abs(ref))) if ref.size else 1.0, facts=f2)
+            return ok
+
+    sys_ = IntSystem(D, seed, 0, "reduced", 4, spec, checks=("model",))
+    st = bfs.explore(sys_, ctx, 2 if tier == "quick" else 3, validate=False)
+    ctx.count("history_states", st["states"])
+    ctx.sample(dict(shard=shard["id"], states=st["states"], transitions=st["transitions"], keys=len(KEYS)))
+
+
 def run_shard(shard, ctx):
+    if shard.get("history"):
+        return run_history(shard, ctx)
     tier, seed = shard["tier"], shard["seed"]
     key, D = shard["key"], shard["D"]
     spec = KEYS[key]
